@@ -21,7 +21,9 @@ import (
 
 func c14Opts(dir string) node.Options {
 	return node.Options{DataDir: dir, Cfg: func(c *types.Config) {
-		c.Exec.EnableMVCC = os.Getenv("VERIF_C14_NO_MVCC") == ""
+		// the executor's mvcc plugin cannot run from genesis on this tree: version 0 is stored as an empty value, which the
+		// local database reads as "not found", so StateDB.enableMVCC panics at height 1 ("must be synchronized from 0 height")
+		c.Exec.EnableMVCC = os.Getenv("VERIF_C14_MVCC") != ""
 		c.Exec.EnableStat = false
 		c.Exec.EnableAddrFeeIndex = true
 	}}
